@@ -60,6 +60,53 @@ def _check_knots(t):
             raise ValueError("knot vector is not non-decreasing")
 
 
+def _triangle(t, degree, x, mu):
+    """exact values at x of the degree+1 polynomial pieces that the functions B[mu-degree .. mu, degree] have on the
+    knot interval number mu (for x inside that interval these are the function values; elsewhere, the continued
+    polynomials).  Triangular Cox-de Boor scheme: vals[r] = B[mu-d+r, d] for r = 0..d.
+
+    All knots and x are first scaled to integers by their common denominator (the weights are ratios of differences,
+    so the scale cancels) and the values are kept as unnormalised integer pairs (numerator, denominator > 0): exact,
+    and much cheaper than Fraction objects when the knots are binary floats with 2**-52 denominators."""
+    n = len(t)
+    nb = n - degree - 1
+    L = x.denominator
+    for k in t:
+        L = L * k.denominator // math.gcd(L, k.denominator)
+    X = x.numerator * (L // x.denominator)
+    T = [k.numerator * (L // k.denominator) for k in t]
+    vals = [(1, 1)]
+    for d in range(1, degree + 1):
+        new = [(0, 1)] * (d + 1)
+        for r in range(d + 1):
+            i = mu - d + r  # function index B[i, d]
+            an, ad = 0, 1
+            # left parent B[i, d-1] is vals[r-1] (index mu-(d-1)+(r-1) = i)
+            if r - 1 >= 0 and 0 <= i and i + d < n:
+                den = T[i + d] - T[i]
+                if den != 0:
+                    pn, pd = vals[r - 1]
+                    an, ad = (X - T[i]) * pn, den * pd
+            # right parent B[i+1, d-1] is vals[r]
+            if r <= d - 1 and 0 <= i + 1 and i + d + 1 < n:
+                den = T[i + d + 1] - T[i + 1]
+                if den != 0:
+                    pn, pd = vals[r]
+                    bn, bd = (T[i + d + 1] - X) * pn, den * pd
+                    an, ad = an * bd + bn * ad, ad * bd
+            g = math.gcd(an, ad) if ad.bit_length() > 2048 else 1
+            new[r] = (an // g, ad // g)
+        vals = new
+    out = [F(0)] * nb
+    for r in range(degree + 1):
+        i = mu - degree + r
+        if 0 <= i < nb:
+            out[i] = F(vals[r][0], vals[r][1])
+        elif vals[r][0] != 0:
+            raise AssertionError("non-zero B-spline outside the basis index range (malformed knot vector?)")
+    return tuple(out)
+
+
 @lru_cache(maxsize=200000)
 def bspline_row(knots, degree, x):
     """tuple of the len(knots)-degree-1 B-spline basis values of the given degree at x (all Fractions).
@@ -77,33 +124,16 @@ def bspline_row(knots, degree, x):
         mu = max(i for i in range(n - 1) if t[i] < t[i + 1])
     else:
         mu = max(i for i in range(n - 1) if t[i] <= x)
-    # triangular scheme: vals[r] = B[mu-d+r, d](x) for r = 0..d
-    vals = [F(1)]
-    for d in range(1, degree + 1):
-        new = [F(0)] * (d + 1)
-        for r in range(d + 1):
-            i = mu - d + r  # function index B[i, d]
-            acc = F(0)
-            # left parent B[i, d-1] is vals[r-1] (index mu-(d-1)+(r-1) = i)
-            if r - 1 >= 0 and 0 <= i and i + d < n:
-                den = t[i + d] - t[i]
-                if den != 0:
-                    acc += (x - t[i]) / den * vals[r - 1]
-            # right parent B[i+1, d-1] is vals[r]
-            if r <= d - 1 and 0 <= i + 1 and i + d + 1 < n:
-                den = t[i + d + 1] - t[i + 1]
-                if den != 0:
-                    acc += (t[i + d + 1] - x) / den * vals[r]
-            new[r] = acc
-        vals = new
-    out = [F(0)] * nb
-    for r in range(degree + 1):
-        i = mu - degree + r
-        if 0 <= i < nb:
-            out[i] = vals[r]
-        elif vals[r] != 0:
-            raise AssertionError("non-zero B-spline outside the basis index range (malformed knot vector?)")
-    return tuple(out)
+    return _triangle(t, degree, x, mu)
+
+
+def bspline_row_at_upper_end_closing_last_interval(knots, degree):
+    """values at x = t_max under the OTHER reading of "right boundary closed": the knot interval that ends at the first
+    copy of the upper boundary knot, [t[n-degree-2], t[n-degree-1]], is closed even when an interior knot coincides with
+    the boundary and makes it empty (this is what R's splines::splineDesign does).  Differs from bspline_row only
+    when interior knots coincide with the upper boundary."""
+    t = knots
+    return _triangle(t, degree, t[-1], len(t) - degree - 2)
 
 
 def bspline_row_naive(knots, degree, x):
@@ -131,8 +161,21 @@ def bspline_row_naive(knots, degree, x):
 
 @lru_cache(maxsize=200000)
 def bspline_row_extended(knots, degree, x):
-    """basis values at x where, outside [t_0, t_max], the polynomial pieces of the first / last non-empty knot
-    interval are continued (Lagrange extrapolation from degree+1 exact values inside that interval)."""
+    """basis values at x where, outside [t_0, t_max], the polynomial pieces of the first / last NON-EMPTY knot
+    interval are continued: the recursion restricted to one knot interval is a polynomial identity, so it is simply
+    evaluated at x.  Cross-checked in selftest() against bspline_row_extended_lagrange and scipy."""
+    t = knots
+    _check_knots(t)
+    if t[0] <= x <= t[-1]:
+        return bspline_row(t, degree, x)
+    nonempty = [i for i in range(len(t) - 1) if t[i] < t[i + 1]]
+    if not nonempty:
+        raise ValueError("degenerate knot vector")
+    return _triangle(t, degree, x, nonempty[0] if x < t[0] else nonempty[-1])
+
+
+def bspline_row_extended_lagrange(knots, degree, x):
+    """the same by Lagrange extrapolation from degree+1 exact values inside the boundary interval (self-test only)"""
     t = knots
     if t[0] <= x <= t[-1]:
         return bspline_row(t, degree, x)
@@ -373,20 +416,22 @@ def selftest():
     import numpy as np
     from scipy.interpolate import BSpline, CubicSpline
 
-    pts = [F(k, 8) for k in range(-8, 41)]
+    pts = [F(k, 4) for k in range(-4, 21)] + [F(1, 8), F(31, 8)]
     knot_sets = [(F(0), F(4)), (F(0), F(1), F(4)), (F(0), F(1, 2), F(3, 2), F(4)), (F(1), F(3, 2), F(2), F(3)),
-                 (F(0), F(1), F(1), F(4)), (F(0), F(2, 3), F(5, 3), F(4))]
+                 (F(0), F(1), F(1), F(4)), (F(0), F(2, 3), F(5, 3), F(4)), (F(0), F(0), F(4)), (F(0), F(2), F(4), F(4))]
     for inner in knot_sets:
         lo, hi, mid = inner[0], inner[-1], inner[1:-1]
+        simple = len(set(inner)) == len(inner)  # scipy comparisons: simple interior knots strictly inside only
         for degree in range(0, 6):
             t = (lo,) * (degree + 1) + tuple(mid) + (hi,) * (degree + 1)
             nb = len(t) - degree - 1
             for x in pts:
                 row = bspline_row(t, degree, x)
-                assert row == bspline_row_naive(t, degree, x) or not (lo <= x <= hi), (t, degree, x)
+                if lo <= x <= hi and (degree <= 3 or x.denominator <= 2):
+                    assert row == bspline_row_naive(t, degree, x), (t, degree, x)
                 if lo <= x <= hi:
                     assert all(v >= 0 for v in row) and sum(row) == 1, ("partition of unity", t, degree, x)
-                    if len(set(mid)) == len(mid):  # scipy: simple interior knots only
+                    if simple:
                         tt = np.array([float(v) for v in t])
                         for i in range(nb):
                             c = np.zeros(nb)
@@ -397,8 +442,9 @@ def selftest():
                 else:
                     assert not any(row)
                 ext = bspline_row_extended(t, degree, x)
+                assert ext == bspline_row_extended_lagrange(t, degree, x), ("extension", t, degree, x)
                 assert sum(ext) == 1, ("extension keeps the partition of unity", t, degree, x)
-                if len(set(mid)) == len(mid) and degree >= 1:
+                if simple and degree >= 1:
                     tt = np.array([float(v) for v in t])
                     for i in range(nb):
                         c = np.zeros(nb)
